@@ -22,6 +22,12 @@ Definition verilog_case (nl : netlist) (mode : rmode) (m : vmodule)
   :: map (fun p => vmems st (fst p) (snd p)) probes
   :: map (fun eo => b2z (snd eo) :: vprobe nl (fst eo)) tr.
 
+(* the same module text under another add_reset option: only the register block's reset
+   structure differs (the harness compares the parsed texts field by field before using this) *)
+Definition set_mode (m : vmodule) (md : rmode) (rs : list (Z * vexpr)) : vmodule :=
+  mkVModule (m_inputs m) (m_outputs m) (m_regs m) (m_wires m) (m_mems m) (m_roms m) (m_assigns m)
+            (m_memrds m) md rs (m_updates m) (m_memwrs m).
+
 Definition tb_case (nl : netlist) (dflt : Z) (regmap : list (Z * Z))
     (memmap : list (Z * list (Z * Z))) (inss : list (list (Z * Z))) (tb : testbench) : list Z :=
   let st0 := init_state nl dflt regmap memmap in
